@@ -25,6 +25,7 @@ const StepBudget = 3_000_000
 type Harness struct {
 	Resources string
 	FontDir   string
+	Scratch   string
 	KeepTrace bool
 	NSites    int
 	// Progress is updated before each phase (read by the CPU watchdog).
@@ -40,6 +41,7 @@ type Outcome struct {
 	Recorded *simrt.Sparse
 	Stats    *simrt.Stats
 	Trace    []simrt.TraceEvent
+	Sys      *SysHistory
 }
 
 func resetGlobals() {
@@ -117,6 +119,14 @@ func (h *Harness) Execute(spec *RunSpec) (*RunReport, *Outcome, error) {
 	defer saved.restore()
 	races0 := simrt.RaceErrors()
 	cpu0 := cpuMS()
+	if spec.Profile == "syscache" {
+		if err := h.executeSys(spec, rep, out); err != nil {
+			return nil, nil, err
+		}
+		rep.Races = simrt.RaceErrors() - races0
+		rep.CPUms = cpuMS() - cpu0
+		return rep, out, nil
+	}
 
 	// ---- reference: every task alone, recycling off
 	h.progress(spec.Run, "ref")
